@@ -19,7 +19,7 @@ BOUNDS = {
              'x,y,z in [0,box] (inclusive), free weight (or None), free offset in [0, box/max(n)], arbitrary symbolic pre-grid; '
              '_wrap_inplace on x in [-box, 2box); tsc_parallel(nthread=1, wrap=True) wiring on (3,3,1) with box=1, x0 in [-box,2box)'
              '; also: wiring items (shared with C07): N=2 (npartition 2, nthread 1) and N=3 (n1d 7, npartition 2, nthread 2), sort on/off, weights on/off',
-    'thorough': 'quick plus TSC (4,4,4) (5,4,1) and CIC (3,4,5) (4,4,4) (4,4,1), wrap wiring along each axis, two particles (first inside cell (1,1,.), second free, box=1) on (3,3,1)',
+    'thorough': 'quick plus TSC (5,4,1) and CIC (3,4,5) (4,4,1), wrap wiring along each axis (two-particle additivity follows from the per-particle obligations: the kernels accumulate with += into the supplied grid, which is free in every item)',
 }
 OUTSIDE = 'float32/float64 rounding and fastmath (real model); grids with an axis of length < 3 other than the one-cell-thick ' \
           'third axis (TSC clouds are 3 cells wide; such grids are not claimed); offsets outside [0, one cell]; grid sizes ' \
@@ -284,8 +284,10 @@ def items(tier, seed):
     tg = [(3, 3, 3), (3, 4, 5), (4, 3, 1), (3, 3, 1)]
     cg = [(3, 3, 3), (3, 3, 1), (4, 3, 1)]
     if tier == 'thorough':
-        tg += [(4, 4, 4), (5, 4, 1)]        # (5,5,5) and (6,6,6) run for hours per x-slab (measured): not registered
-        cg += [(3, 4, 5), (4, 4, 4), (4, 4, 1)]
+        # measured: one x-slab of TSC (4,4,4) or CIC (4,4,4) needs more than an hour of solver time, (5,5,5)/(6,6,6) several, and so do the
+        # two-particle items; they are not registered.  The thorough tier adds the remaining anisotropic / thin grids and wrap axes.
+        tg += [(5, 4, 1)]
+        cg += [(3, 4, 5), (4, 4, 1)]
     for kind, grids in (('tsc', tg), ('cic', cg)):
         for g in grids:
             for ww in (True, False):
@@ -296,10 +298,6 @@ def items(tier, seed):
                 for sl in slabs:
                     out.append(dict(name=f'{kind}/{"x".join(map(str, g))}/w={ww}' + (f'/xslab={sl}' if sl is not None else ''),
                                     kind=kind, shape=g, w=ww, N=1, slab=sl))
-    if tier == 'thorough':
-        for sl in range(4):
-            out.append(dict(name=f'tsc/3x3x1/N=2/xslab={sl}', kind='tsc', shape=(3, 3, 1), w=True, N=2, slab=sl))
-            out.append(dict(name=f'cic/3x3x1/N=2/xslab={sl}', kind='cic', shape=(3, 3, 1), w=True, N=2, slab=sl))
     out.append(dict(name='wrap', kind='wrap'))
     # thread / partition settings: with a multi-stripe partition (and the in-stripe sort) the kernel must still be handed
     # every particle once, with its own weight (the obligation is shared with C07, where it is defined)
